@@ -54,7 +54,12 @@ theorem compute_speed (c : Cfg) (s s' : St) (t : Q) (h : compute c s t = .ok s')
   unfold compute at h; simp only at h
   split at h
   · simp at h
-  · simp only [Except.ok.injEq] at h; subst h; exact ⟨_, rfl, rfl⟩
+  · skip
+    split at h
+    · simp at h
+    · split at h
+      · simp at h
+      · simp only [Except.ok.injEq] at h; subst h; exact ⟨_, rfl, rfl⟩
 
 /-- one step from a coherent state: the new record is related to the last one, and the state stays coherent -/
 theorem stepAt_relation (c : Cfg) (dt : Q) (s s' : St) (t : Q) (hinv : s.locked = true → c.sl = true)
@@ -172,7 +177,7 @@ theorem inertia_units {T : Tbl} (g : T.Good) (Jrun Ji x r : Qty) (ratio : Q)
   rw [e2, e1]
 
 /-! ### non-vacuity: the relation holds on a concrete two-step history -/
-example : StepRel (1/2) ⟨0, [2], [1], [4], [], [], [], 1, none, false⟩ ⟨1/2, [7/2], [3], [0], [], [], [], 1, none, false⟩ := by
+example : StepRel (1/2) ⟨0, [2], [1], [4], [], [], [], 1, none, false, [], [], []⟩ ⟨1/2, [7/2], [3], [0], [], [], [], 1, none, false, [], [], []⟩ := by
   simp [StepRel, lastD]; norm_num
 
 end Gearpy.C03
